@@ -16,10 +16,15 @@
   (`rewrites_rowwise`, `rewrites_transposed` are the composite statements).  Termination: `termination_independent`;
   header blanks never turn a non-marker first cell into a marker (`classify_pad`), so the rewritten grid stays one
   block for the splitter; `stream_rowwise` / `stream_transposed` combine everything for a row stream.
+  Every sequence of rewrites: `inductive Rewrite`, `applyAll`, `applyAll_rvariant` / `applyAll_tvariant`,
+  `rewrites_any_rowwise` / `rewrites_any_transposed`.  Tables without columns (`TV.wf0`): `zero_columns_same_table`,
+  `rewrites_any_zero_columns`.  Splitter and parser together: `parse_delivers`, `parse_rewritten_rowwise`,
+  `parse_rewritten_transposed` (what `parse_blocks` delivers for the rewritten stream is the plain text's table).
 -/
 import PdtModel.Model.Rewrites
 import PdtModel.Props.C02
 import PdtModel.Props.C03
+import PdtModel.Props.C11
 import PdtModel.Lemmas.Text
 import PdtModel.Lemmas.Marker
 set_option linter.unusedSimpArgs false
@@ -428,8 +433,14 @@ theorem tvariant_layout (t : TV) (hwf : t.wf = true) (hwfT : t.wfT = true) (g : 
 
 /-! ## 7. the plain layouts are variants; the rewrites map variants to variants -/
 
+theorem layoutR_nonempty (t : TV) (h : t.cols ≠ []) :
+    layoutR t = [headR t] :: [t.dest] :: t.names.map Cell.str :: t.units.map Cell.str :: t.dataRows := by
+  unfold layoutR
+  rw [if_neg (by simpa using h)]
+
 theorem rvariant_plain (t : TV) (hwf : t.wf = true) : RVariant t (layoutR t) := by
-  refine ⟨[], [], t.names.map Cell.str, [], t.units.map Cell.str, [], t.dataRows, by simp [layoutR],
+  refine ⟨[], [], t.names.map Cell.str, [], t.units.map Cell.str, [], t.dataRows,
+    by rw [layoutR_nonempty t (wf_unpack t hwf).2.1]; simp,
     nameCells_plain t hwf, by intro c hc; simp at hc, unitCells_plain t hwf, ?_⟩
   have := All₂.of_map (R := fun r r' : Row => ∃ p, r' = r ++ p) (fun r => r) t.dataRows
     (fun r _ => ⟨[], by simp⟩)
@@ -618,8 +629,9 @@ theorem getD0_map_str (l : List Str) (j : Nat) (h : j < l.length) : getD0 (l.map
 /-- zipping the row-wise lines `names / units / rows` gives the transposed lines: **`zip`-transpose of the
     value rows gives back the columns** -/
 theorem toTransposed_layoutR (t : TV) (hwf : t.wf = true) : toTransposed (layoutR t) = layoutT t := by
-  obtain ⟨_, _, hc⟩ := wf_unpack t hwf
-  simp only [layoutR, layoutT, toTransposed, headR, headT, List.cons_append, List.cons.injEq, true_and]
+  obtain ⟨_, hne, hc⟩ := wf_unpack t hwf
+  rw [layoutR_nonempty t hne]
+  simp only [layoutT, toTransposed, headR, headT, List.cons_append, List.cons.injEq, true_and]
   apply List.ext_getElem
   · simp [transposeN, TV.names]
   · intro j h1 h2
@@ -1100,7 +1112,325 @@ theorem stream_transposed (t : TV) (hwf : t.wf = true) (hwfT : t.wfT = true) (hb
   rw [toTransposed_layoutR t hwf]
   exact blockShaped_padTrailing _ pads (blockShaped_padHeaderT _ fn fu hn hu hbs)
 
-/-! ## 12. non-vacuity, and why the orientation rewrite needs well-formedness in both layouts -/
+/-! ## 12. every sequence of rewrites; tables without columns -/
+
+/-- side conditions under which a rewrite is one of the five families applied to a row-wise text -/
+def OkR : Rewrite → Prop
+  | .padTrailing pads => ∀ p ∈ pads, allBlank p = true
+  | .padHeaderR fn fu => Blanks fn ∧ Blanks fu
+  | .padHeaderT _ _ => False
+  | .addComments b _ => b.isBlank = true
+
+/-- … applied to a transposed text (no column-name row, hence no comments) -/
+def OkT : Rewrite → Prop
+  | .padTrailing pads => ∀ p ∈ pads, allBlank p = true
+  | .padHeaderT fn fu => Blanks fn ∧ Blanks fu
+  | .padHeaderR _ _ => False
+  | .addComments _ _ => False
+
+theorem apply_rvariant (t : TV) (g : List Row) (h : RVariant t g) (r : Rewrite) (hr : OkR r) :
+    RVariant t (r.apply g) := by
+  cases r with
+  | padTrailing pads => exact padTrailing_rvariant t g h pads hr
+  | padHeaderR fn fu => exact padHeaderR_rvariant t g h fn fu hr.1 hr.2
+  | padHeaderT fn fu => exact hr.elim
+  | addComments b cs => exact addComments_rvariant t g h b cs hr
+
+theorem apply_tvariant (t : TV) (g : List Row) (h : TVariant t g) (r : Rewrite) (hr : OkT r) :
+    TVariant t (r.apply g) := by
+  cases r with
+  | padTrailing pads => exact padTrailing_tvariant t g h pads hr
+  | padHeaderT fn fu => exact padHeaderT_tvariant t g h fn fu hr.1 hr.2
+  | padHeaderR fn fu => exact hr.elim
+  | addComments b cs => exact hr.elim
+
+/-- **every composition, row-wise**: any sequence of trailing cells / header blanks / comments, in any order and
+    with any repetition, maps row-wise variants to row-wise variants -/
+theorem applyAll_rvariant (t : TV) (rs : List Rewrite) (g : List Row) (h : RVariant t g) (hok : ∀ r ∈ rs, OkR r) :
+    RVariant t (applyAll rs g) := by
+  induction rs generalizing g with
+  | nil => exact h
+  | cons r rs ih =>
+    exact ih (r.apply g) (apply_rvariant t g h r (hok r (by simp))) (fun x hx => hok x (List.mem_cons_of_mem _ hx))
+
+/-- **every composition, transposed** -/
+theorem applyAll_tvariant (t : TV) (rs : List Rewrite) (g : List Row) (h : TVariant t g) (hok : ∀ r ∈ rs, OkT r) :
+    TVariant t (applyAll rs g) := by
+  induction rs generalizing g with
+  | nil => exact h
+  | cons r rs ih =>
+    exact ih (r.apply g) (apply_tvariant t g h r (hok r (by simp))) (fun x hx => hok x (List.mem_cons_of_mem _ hx))
+
+theorem apply_blockShaped (g : List Row) (r : Rewrite) (hr : OkR r ∨ OkT r) (h : blockShaped g = true) :
+    blockShaped (r.apply g) = true := by
+  cases r with
+  | padTrailing pads => exact blockShaped_padTrailing g pads h
+  | padHeaderR fn fu =>
+    rcases hr with hr | hr
+    · exact blockShaped_padHeaderR g fn fu hr.1 hr.2 h
+    · exact hr.elim
+  | padHeaderT fn fu =>
+    rcases hr with hr | hr
+    · exact hr.elim
+    · exact blockShaped_padHeaderT g fn fu hr.1 hr.2 h
+  | addComments b cs => exact blockShaped_addComments g b cs h
+
+theorem applyAll_blockShaped (rs : List Rewrite) (g : List Row) (hok : ∀ r ∈ rs, OkR r ∨ OkT r)
+    (h : blockShaped g = true) : blockShaped (applyAll rs g) = true := by
+  induction rs generalizing g with
+  | nil => exact h
+  | cons r rs ih =>
+    exact ih (r.apply g) (fun x hx => hok x (List.mem_cons_of_mem _ hx)) (apply_blockShaped g r (hok r (by simp)) h)
+
+/-- **C10 for any sequence of rewrites of the row-wise text** -/
+theorem rewrites_any_rowwise (t : TV) (hwf : t.wf = true) (rs : List Rewrite) (hok : ∀ r ∈ rs, OkR r)
+    (ext : Ext) (f : Fixer) :
+    makeTable ext (applyAll rs (layoutR t)) f = makeTable ext (layoutR t) f :=
+  (rowwise_variant_same_table t hwf _ (applyAll_rvariant t rs _ (rvariant_plain t hwf) hok) ext f).1
+
+/-- **C10 for the orientation rewrite followed by any sequence of rewrites of the transposed text** -/
+theorem rewrites_any_transposed (t : TV) (hwf : t.wf = true) (hwfT : t.wfT = true) (rs : List Rewrite)
+    (hok : ∀ r ∈ rs, OkT r) (ext : Ext) (f : Fixer) :
+    eraseFlag (makeTable ext (applyAll rs (toTransposed (layoutR t))) f) =
+      eraseFlag (makeTable ext (layoutR t) f) := by
+  rw [toTransposed_layoutR t hwf]
+  exact (transposed_variant_same_table t hwf hwfT _ (applyAll_tvariant t rs _ (tvariant_plain t hwf) hok) ext f).1
+
+/-! ### tables without columns: both layouts are the two lines `**name[*]` / destinations -/
+
+/-- the grids that spell a column-less table: its two lines, any cells appended -/
+def Variant0 (t : TV) (transposed : Bool) (g : List Row) : Prop :=
+  ∃ r0 r1, g = [(if transposed then headT t else headR t) :: r0, t.dest :: r1]
+
+theorem wf0_unpack (t : TV) (h : t.wf0 = true) : t.name.getLast? ≠ some '*' ∧ t.cols = [] ∧ t.nRows = 0 := by
+  simp only [TV.wf0, Bool.and_eq_true, bne_iff_ne, ne_eq, List.isEmpty_iff, beq_iff_eq] at h
+  exact ⟨h.1.1, h.1.2, h.2⟩
+
+theorem variant0_layout (t : TV) (h0 : t.wf0 = true) (b : Bool) (g : List Row) (h : Variant0 t b g) :
+    layout g = .ok (specLayout t b) := by
+  obtain ⟨hname, hc, hn⟩ := wf0_unpack t h0
+  obtain ⟨r0, r1, rfl⟩ := h
+  have hspec : specLayout t b = ⟨t.name, b, destinations t.dest, [], [], []⟩ := by
+    simp [specLayout, TV.names, TV.units, TV.dataRows, hc, hn, transposeN]
+  rw [hspec]
+  cases b with
+  | false =>
+    simp [layout, tableName, headR, hname, bind, Except.bind, pure, Except.pure]
+  | true =>
+    simp [layout, tableName, headT, bind, Except.bind, pure, Except.pure]
+
+theorem variant0_plainR (t : TV) (h0 : t.wf0 = true) : Variant0 t false (layoutR t) := by
+  obtain ⟨_, hc, _⟩ := wf0_unpack t h0
+  exact ⟨[], [], by simp [layoutR, hc]⟩
+
+theorem variant0_plainT (t : TV) (h0 : t.wf0 = true) : Variant0 t true (layoutT t) := by
+  obtain ⟨_, hc, _⟩ := wf0_unpack t h0
+  exact ⟨[], [], by simp [layoutT, hc]⟩
+
+theorem toTransposed_variant0 (t : TV) (g : List Row) (h : Variant0 t false g) :
+    Variant0 t true (toTransposed g) := by
+  obtain ⟨r0, r1, rfl⟩ := h
+  exact ⟨r0, r1, by simp [toTransposed, headR, headT]⟩
+
+/-- every rewrite (no side condition needed) keeps a column-less grid a column-less grid: trailing cells are
+    appended to the two lines, the header rewrites find no header line to change -/
+theorem apply_variant0 (t : TV) (b : Bool) (g : List Row) (h : Variant0 t b g) (r : Rewrite) :
+    Variant0 t b (r.apply g) := by
+  obtain ⟨r0, r1, rfl⟩ := h
+  cases r with
+  | padTrailing pads =>
+    match pads with
+    | [] => exact ⟨r0, r1, rfl⟩
+    | [p0] => exact ⟨r0 ++ p0, r1, by simp [Rewrite.apply, padTrailing]⟩
+    | p0 :: p1 :: ps => exact ⟨r0 ++ p0, r1 ++ p1, by cases ps <;> simp [Rewrite.apply, padTrailing]⟩
+  | padHeaderR fn fu => exact ⟨r0, r1, rfl⟩
+  | padHeaderT fn fu => exact ⟨r0, r1, rfl⟩
+  | addComments c cs => exact ⟨r0, r1, rfl⟩
+
+theorem applyAll_variant0 (t : TV) (b : Bool) (rs : List Rewrite) (g : List Row) (h : Variant0 t b g) :
+    Variant0 t b (applyAll rs g) := by
+  induction rs generalizing g with
+  | nil => exact h
+  | cons r rs ih => exact ih (r.apply g) (apply_variant0 t b g h r)
+
+/-- **C10 for a table without columns**: either layout, after any sequence of rewrites, reads as the same
+    (column-less) table as the plain row-wise text, apart from the transposed flag -/
+theorem zero_columns_same_table (t : TV) (h0 : t.wf0 = true) (b : Bool) (g : List Row) (h : Variant0 t b g)
+    (ext : Ext) (f : Fixer) :
+    eraseFlag (makeTable ext g f) = eraseFlag (makeTable ext (layoutR t) f) ∧
+    eraseFlag (makePrecursor ext g f) = eraseFlag (makePrecursor ext (layoutR t) f) := by
+  have h1 := variant0_layout t h0 b g h
+  have h2 := variant0_layout t h0 false _ (variant0_plainR t h0)
+  have hp := makePrecursor_flag ext g (layoutR t) (specLayout t false) b f h1 h2
+  exact ⟨makeTable_flag ext g (layoutR t) f hp, hp⟩
+
+theorem rewrites_any_zero_columns (t : TV) (h0 : t.wf0 = true) (rsR rsT : List Rewrite) (ext : Ext) (f : Fixer) :
+    makeTable ext (applyAll rsR (layoutR t)) f = makeTable ext (layoutR t) f ∧
+    eraseFlag (makeTable ext (applyAll rsT (toTransposed (applyAll rsR (layoutR t)))) f) =
+      eraseFlag (makeTable ext (layoutR t) f) := by
+  have hR := applyAll_variant0 t false rsR _ (variant0_plainR t h0)
+  refine ⟨?_, (zero_columns_same_table t h0 true _
+    (applyAll_variant0 t true rsT _ (toTransposed_variant0 t _ hR)) ext f).1⟩
+  have h1 := variant0_layout t h0 false _ hR
+  have h2 := variant0_layout t h0 false _ (variant0_plainR t h0)
+  simp [makeTable, makePrecursor, h1, h2]
+
+/-! ## 13. the splitter and the parser together: what `parse_blocks` delivers for the rewritten stream -/
+
+section
+variable {R : Type} (kindOf : R → Kind)
+
+/-- the blocks of `pre ++ table block ++ post` are the blocks of `pre` read alone, then the table block, then
+    whatever the rest gives -/
+theorem table_block_split (pre : List R) (h : R) (body post : List R) (hh : kindOf h = .tbl)
+    (hb : ∀ r ∈ body, kindOf r = .plain)
+    (hpost : post = [] ∨ ∃ r rest, post = r :: rest ∧ kindOf r ≠ .plain) :
+    ∃ rest, run kindOf (pre ++ (h :: body) ++ post) =
+      run kindOf pre ++ (⟨.table, h :: body, pre.length⟩ : Block R) :: rest := by
+  unfold run
+  rw [List.append_assoc, go_append, C03.go_eq_emitted kindOf 0 initSt pre]
+  simp only [List.cons_append, go, Nat.zero_add]
+  have hs : step kindOf (emitted kindOf 0 initSt pre).2 pre.length h =
+      (⟨[h], .table, pre.length⟩, emit (emitted kindOf 0 initSt pre).2) := by
+    simp [step, switch, hh]
+  rw [hs]
+  simp only []
+  rw [go_plain kindOf _ _ body post hb]
+  rcases hpost with rfl | ⟨r, rest, rfl, hr⟩
+  · exact ⟨[], by simp [go, emit]⟩
+  · refine ⟨go kindOf (pre.length + 1 + body.length + 1)
+      (step kindOf ⟨[h] ++ body, .table, pre.length⟩ (pre.length + 1 + body.length) r).1 rest, ?_⟩
+    simp only [go, step_ends_table kindOf _ _ _ r hr]
+    simp [emit]
+
+end
+
+/-- the same for native rows and the three endings -/
+theorem segment_split (pre g : List Row) (hg : blockShaped g = true) (e : EndBy) (he : e.ok = true) :
+    ∃ rest, segment (pre ++ endBy g e) = segment pre ++ (⟨.table, g, pre.length⟩ : Block Row) :: rest := by
+  obtain ⟨hd, body, rfl, hh, hb⟩ := blockShaped_unpack g hg
+  unfold segment
+  cases e with
+  | eof =>
+    have := table_block_split rowKind pre hd body [] hh hb (Or.inl rfl)
+    simpa [endBy] using this
+  | blankLine b rest =>
+    have hk : rowKind b ≠ .plain := by
+      intro hk; simp [EndBy.ok, hk, Kind.isBlank] at he
+    have := table_block_split rowKind pre hd body (b :: rest) hh hb (Or.inr ⟨b, rest, rfl, hk⟩)
+    simpa [endBy] using this
+  | nextBlock m rest =>
+    have hk : rowKind m ≠ .plain := by
+      intro hk; simp [EndBy.ok, hk] at he
+    have := table_block_split rowKind pre hd body (m :: rest) hh hb (Or.inr ⟨m, rest, rfl, hk⟩)
+    simpa [endBy] using this
+
+open Pdt.Blocks in
+/-- an unfiltered read whose earlier blocks do not end it delivers block `b` with the value its handler gives
+    from clean counters (the fixer's message log is irrelevant: `C11.rel_handle`) -/
+theorem runBlocks_delivers (cfg : Config) (hflt : cfg.filter = none) (bs1 : List (Block Row)) (b : Block Row)
+    (bs2 : List (Block Row)) (f f0 f1 : Fixer) (v : BlockVal)
+    (hprev : (runBlocks cfg bs1 f).ending = .exhausted)
+    (hcfg : f0.cfg = f.cfg) (hclean : f0.errors = 0 ∧ f0.warnings = 0)
+    (hb : handle cfg b.ty b.rows f0 = .ok (v, f1)) :
+    (⟨b.ty, b.first, v⟩ : Delivered) ∈ (runBlocks cfg (bs1 ++ b :: bs2) f).blocks := by
+  have hacc : ∀ ty rows, accepts cfg ty rows = true := by intro ty rows; simp [accepts, hflt]
+  induction bs1 generalizing f with
+  | nil =>
+    have hrel : C11.Rel f0 f.reset := ⟨hcfg, hclean.1, hclean.2⟩
+    have := C11.rel_handle cfg b.ty b.rows f0 f.reset hrel
+    rw [hb] at this
+    simp only [List.nil_append, runBlocks, hacc, Bool.not_true, Bool.false_eq_true, if_false]
+    cases hf : handle cfg b.ty b.rows f.reset with
+    | error e => rw [hf] at this; exact this.elim
+    | ok r =>
+      obtain ⟨w, f'⟩ := r
+      rw [hf] at this
+      obtain ⟨rfl, _⟩ := this
+      simp
+  | cons x xs ih =>
+    simp only [List.cons_append, runBlocks, hacc, Bool.not_true, Bool.false_eq_true, if_false] at hprev ⊢
+    cases hx : handle cfg x.ty x.rows f.reset with
+    | ok r =>
+      obtain ⟨w, f'⟩ := r
+      rw [hx] at hprev
+      simp only [] at hprev ⊢
+      have hf' : f'.cfg = f.cfg := C11.handle_cfg cfg x.ty x.rows f.reset w f' hx
+      exact List.mem_cons_of_mem _ (ih f' hprev (by rw [hcfg, hf']))
+    | error e =>
+      rw [hx] at hprev
+      simp only [] at hprev ⊢
+      by_cases hc : caught e = true
+      · simp only [hc, if_true] at hprev ⊢
+        cases htr : cfg.tracker with
+        | raising => rw [htr] at hprev; simp at hprev
+        | collecting =>
+          rw [htr] at hprev
+          simp only [] at hprev ⊢
+          exact ih f.reset hprev hcfg
+      · simp only [hc, if_false] at hprev
+        simp at hprev
+
+open Pdt.Blocks in
+/-- **splitter + parser**: for a one-block grid `g` that parses to `p`, reading `pre ++ g ++ ending` without a
+    filter delivers the TABLE block `⟨pre.length, Table p⟩` — provided the rows before it do not end the read -/
+theorem parse_delivers (cfg : Config) (hflt : cfg.filter = none) (hform : cfg.form = .pdtable)
+    (pre g : List Row) (hg : blockShaped g = true) (e : EndBy) (he : e.ok = true) (f f0 f1 : Fixer) (p : Precursor)
+    (hpre : (parseBlocks cfg pre f).ending = .exhausted)
+    (hcfg : f0.cfg = f.cfg) (hclean : f0.errors = 0 ∧ f0.warnings = 0)
+    (hp : makeTable cfg.ext g f0 = .ok (p, f1)) :
+    (⟨.table, pre.length, .table p⟩ : Delivered) ∈ (parseBlocks cfg (pre ++ endBy g e) f).blocks := by
+  obtain ⟨rest, hs⟩ := segment_split pre g hg e he
+  unfold parseBlocks at hpre ⊢
+  rw [hs]
+  have hb : handle cfg BT.table g f0 = .ok (.table p, f1) := by
+    simp [handle, hform, hp, bind, Except.bind, pure, Except.pure]
+  exact runBlocks_delivers cfg hflt (segment pre) ⟨.table, g, pre.length⟩ rest f f0 f1 (.table p) hpre hcfg hclean hb
+
+open Pdt.Blocks in
+/-- **C10 end to end, row-wise text**: if the plain row-wise text parses to `p`, then after any sequence of rewrites,
+    preceded by rows `pre` that read to the end, and ended in any of the three ways, `parse_blocks` delivers
+    exactly `Table p` at origin row `pre.length` -/
+theorem parse_rewritten_rowwise (t : TV) (hwf : t.wf = true) (hbs : blockShaped (layoutR t) = true)
+    (rs : List Rewrite) (hok : ∀ r ∈ rs, OkR r) (cfg : Config) (hflt : cfg.filter = none)
+    (hform : cfg.form = .pdtable) (pre : List Row) (e : EndBy) (he : e.ok = true) (f f0 f1 : Fixer) (p : Precursor)
+    (hpre : (parseBlocks cfg pre f).ending = .exhausted)
+    (hcfg : f0.cfg = f.cfg) (hclean : f0.errors = 0 ∧ f0.warnings = 0)
+    (hp : makeTable cfg.ext (layoutR t) f0 = .ok (p, f1)) :
+    (⟨.table, pre.length, .table p⟩ : Delivered) ∈
+      (parseBlocks cfg (pre ++ endBy (applyAll rs (layoutR t)) e) f).blocks := by
+  apply parse_delivers cfg hflt hform pre _
+    (applyAll_blockShaped rs _ (fun r hr => Or.inl (hok r hr)) hbs) e he f f0 f1 p hpre hcfg hclean
+  rw [rewrites_any_rowwise t hwf rs hok]
+  exact hp
+
+open Pdt.Blocks in
+/-- **C10 end to end, transposed text**: the delivered table equals `p` apart from the transposed flag -/
+theorem parse_rewritten_transposed (t : TV) (hwf : t.wf = true) (hwfT : t.wfT = true)
+    (hbs : blockShaped (layoutT t) = true) (rs : List Rewrite) (hok : ∀ r ∈ rs, OkT r) (cfg : Config)
+    (hflt : cfg.filter = none) (hform : cfg.form = .pdtable) (pre : List Row) (e : EndBy) (he : e.ok = true)
+    (f f0 f1 : Fixer) (p : Precursor)
+    (hpre : (parseBlocks cfg pre f).ending = .exhausted)
+    (hcfg : f0.cfg = f.cfg) (hclean : f0.errors = 0 ∧ f0.warnings = 0)
+    (hp : makeTable cfg.ext (layoutR t) f0 = .ok (p, f1)) :
+    ∃ p', (⟨.table, pre.length, .table p'⟩ : Delivered) ∈
+        (parseBlocks cfg (pre ++ endBy (applyAll rs (toTransposed (layoutR t))) e) f).blocks ∧
+      { p' with transposed := false } = { p with transposed := false } := by
+  have hflag := rewrites_any_transposed t hwf hwfT rs hok cfg.ext f0
+  rw [hp] at hflag
+  cases hq : makeTable cfg.ext (applyAll rs (toTransposed (layoutR t))) f0 with
+  | error e' => rw [hq] at hflag; simp [eraseFlag, Except.map] at hflag
+  | ok r =>
+    obtain ⟨p', f1'⟩ := r
+    rw [hq] at hflag
+    simp only [eraseFlag, Except.map, Except.ok.injEq, Prod.mk.injEq] at hflag
+    refine ⟨p', ?_, hflag.1⟩
+    have hbs' : blockShaped (applyAll rs (toTransposed (layoutR t))) = true := by
+      rw [toTransposed_layoutR t hwf]
+      exact applyAll_blockShaped rs _ (fun r hr => Or.inr (hok r hr)) hbs
+    exact parse_delivers cfg hflt hform pre _ hbs' e he f f0 f1' p' hpre hcfg hclean hq
+
+/-! ## 14. non-vacuity, and why the orientation rewrite needs well-formedness in both layouts -/
 
 def exT : TV := ⟨"t".toList, .str "all".toList,
   [⟨"b".toList, "m".toList, [.str "1.5".toList, .str " NaN ".toList]⟩,
@@ -1150,5 +1480,52 @@ example :
       some [.text ["x".toList, [], "y".toList]] ∧
     (makeTable C02.exampleExt (layoutT exRowwiseOnly) exFixer).toOption.map (·.1.columns) =
       some [.text ["x".toList]] := by decide
+
+/-- a table without columns: hypotheses hold, both layouts are one block, and it parses -/
+def exZero : TV := ⟨"z".toList, .str "all".toList, [], 0⟩
+
+example : exZero.wf0 = true ∧ blockShaped (layoutR exZero) = true ∧ blockShaped (layoutT exZero) = true := by decide
+
+example : (makeTable C02.exampleExt (toTransposed (layoutR exZero)) exFixer).toOption.map
+    (fun r => (r.1.names, r.1.columns, r.1.transposed)) = some ([], [], true) := by decide
+
+/-- a sequence of rewrites in "another order", with repetition, satisfying the side conditions -/
+def exRewritesR : List Rewrite :=
+  [.padTrailing [[.str []]], .padHeaderR exPad exPad, .addComments (.str []) [.str "c".toList],
+   .padTrailing [[], [], [.none]], .padHeaderR exPad exPad, .addComments .none []]
+
+theorem exRewritesR_ok : ∀ r ∈ exRewritesR, OkR r := by
+  intro r hr
+  simp only [exRewritesR, List.mem_cons, List.mem_nil_iff, or_false] at hr
+  rcases hr with rfl | rfl | rfl | rfl | rfl | rfl
+  · intro p hp; simp at hp; subst hp; decide
+  · exact ⟨exPad_blanks, exPad_blanks⟩
+  · show (Cell.str []).isBlank = true; decide
+  · intro p hp; simp at hp; rcases hp with rfl | rfl <;> decide
+  · exact ⟨exPad_blanks, exPad_blanks⟩
+  · show Cell.none.isBlank = true; decide
+
+def exRewritesT : List Rewrite := [.padHeaderT exPad exPad, .padTrailing [[], [], [.str []]], .padHeaderT exPad exPad]
+
+theorem exRewritesT_ok : ∀ r ∈ exRewritesT, OkT r := by
+  intro r hr
+  simp only [exRewritesT, List.mem_cons, List.mem_nil_iff, or_false] at hr
+  rcases hr with rfl | rfl | rfl
+  · exact ⟨exPad_blanks, exPad_blanks⟩
+  · intro p hp; simp at hp; rcases hp with rfl | rfl <;> decide
+  · exact ⟨exPad_blanks, exPad_blanks⟩
+
+/-- the hypotheses of `parse_rewritten_rowwise` are satisfiable: rows before the table that read to the end, a
+    plain text that parses from clean counters -/
+def exCfg : Blocks.Config := ⟨.pdtable, none, .raising, C02.exampleExt⟩
+def exPre : List Row := [[.str "author:".toList, .str "x".toList], []]
+
+example : C11.Ending.isExhausted (Blocks.parseBlocks exCfg exPre exFixer).ending = true := by decide
+example : (makeTable exCfg.ext (layoutR exT) exFixer).toOption.isSome = true := by decide
+
+/-- … and the conclusion, evaluated on the rewritten stream ended by the next block -/
+example : ((Blocks.parseBlocks exCfg
+      (exPre ++ endBy (applyAll exRewritesR (layoutR exT)) (.nextBlock [.str "***inc".toList] [])) exFixer).blocks.map
+      (fun d => (d.ty, d.first))) = [(.metadata, 0), (.table, 2), (.directive, 8)] := by decide
 
 end Pdt.C10
